@@ -13,7 +13,7 @@
 #include "opus.h"
 #include "opus_private.h"
 
-static long h_fs[3], h_api[5], h_ms[4], h_code[4], h_lbrr, h_pk, h_cbr, h_fec, h_samples;
+static long h_fs[3], h_api[5], h_ms[4], h_code[4], h_lbrr, h_pk, h_cbr, h_fec, h_samples, h_switch, h_empty;
 
 static void synth_signal(vrng *r, opus_int16 *x, int n, int fs)
 {
@@ -59,6 +59,13 @@ static void run_stream(vrng *r, long idx)
    opus_encoder_ctl(enc, OPUS_SET_DTX(0));
    opus_encoder_ctl(enc, OPUS_SET_VBR(!cbr));
    for (p = 0; p < npk; p++) { plen[p] = opus_encode(enc, in + (long)p * fsz, fsz, pk[p], 1500); if (plen[p] < 0) plen[p] = 0; }
+   /* stay inside the class: the SILK encoder may switch its internal rate on its own (low bit-rates); the packet before such a
+      switch and the first one after it carry a CELT redundancy frame (opus_encoder.c:1845-1851, 2144-2150), which opus_decode
+      cross-fades into the output.  Keep the packets before the first change of the TOC configuration, without the last of them. */
+   { int c = npk; for (p = 1; p < npk; p++) if (plen[p] > 0 && plen[0] > 0 && (pk[p][0] >> 3) != (pk[0][0] >> 3)) { c = p; break; }
+     if (c < npk) { h_switch++; npk = c - 1; } }
+   if (npk <= 0 || plen[0] <= 0) { h_empty++; free(in); free(out); opus_encoder_destroy(enc); opus_decoder_destroy(dec); return; }
+   bw = (pk[0][0] >> 3) / 4;         /* TOC configurations 0-3 NB, 4-7 MB, 8-11 WB */
    /* repacketise runs of 2-3 packets (same TOC configuration, total <= 120 ms) into one code-1/2/3 packet */
    p = 0;
    while (p < npk) {
@@ -102,7 +109,7 @@ int main(int argc, char **argv)
    n = atol(argv[3]);
    for (i = 0; i < n; i++) run_stream(&r, i);
    printf("# streams=%ld packets=%ld samples=%ld internal 8/12/16 kHz=%ld/%ld/%ld API 8/12/16/24/48 kHz=%ld/%ld/%ld/%ld/%ld frame 10/20/40/60 ms=%ld/%ld/%ld/%ld "
-          "packet code 0/1/2/3=%ld/%ld/%ld/%ld packets_with_LBRR=%ld cbr_streams=%ld fec_streams=%ld\n", n, h_pk, h_samples, h_fs[0], h_fs[1], h_fs[2],
-          h_api[0], h_api[1], h_api[2], h_api[3], h_api[4], h_ms[0], h_ms[1], h_ms[2], h_ms[3], h_code[0], h_code[1], h_code[2], h_code[3], h_lbrr, h_cbr, h_fec);
+          "packet code 0/1/2/3=%ld/%ld/%ld/%ld packets_with_LBRR=%ld cbr_streams=%ld fec_streams=%ld truncated_before_encoder_bandwidth_switch=%ld dropped_empty=%ld\n", n, h_pk, h_samples, h_fs[0], h_fs[1], h_fs[2],
+          h_api[0], h_api[1], h_api[2], h_api[3], h_api[4], h_ms[0], h_ms[1], h_ms[2], h_ms[3], h_code[0], h_code[1], h_code[2], h_code[3], h_lbrr, h_cbr, h_fec, h_switch, h_empty);
    return 0;
 }
